@@ -341,8 +341,11 @@ func (w h2Writer) CloseWrite() error {
 
 func (p proxyHandler) writeErrorResponse(rw http.ResponseWriter, req *http.Request, err error) {
 	res := maybeConnectErrorResponse(err)
+	var proxyAuthenticate []string
 	if res == nil {
 		res = p.errorResponse(req, err)
+		// The challenge issued by this proxy is meant for the client, it must survive the hop-by-hop removal.
+		proxyAuthenticate = res.Header.Values("Proxy-Authenticate")
 	} else {
 		// The response was built for the transport's CONNECT request, bind it to the client's request.
 		res.Request = req
@@ -353,6 +356,9 @@ func (p proxyHandler) writeErrorResponse(rw http.ResponseWriter, req *http.Reque
 		if !p.WithoutWarning {
 			proxyutil.Warning(res.Header, err)
 		}
+	}
+	if len(proxyAuthenticate) > 0 {
+		res.Header["Proxy-Authenticate"] = proxyAuthenticate
 	}
 	p.writeResponse(rw, res)
 }
